@@ -81,12 +81,14 @@ pub fn crypto_secretbox_open_detached(
     nonce: &Nonce,
     key: &Key,
 ) -> Result<(), Error> {
-    let c_len = ciphertext.len();
-    message[..c_len].copy_from_slice(ciphertext);
+    // authenticate and decrypt exactly the bytes received: a `message` buffer
+    // longer than the ciphertext must not contribute to the authenticator
+    let message = &mut message[..ciphertext.len()];
+    message.copy_from_slice(ciphertext);
     let res = crypto_secretbox_open_detached_inplace(message, mac, nonce, key);
     if res.is_err() {
         // leave nothing derived from the rejected ciphertext in the output
-        message[..c_len].fill(0);
+        message.fill(0);
     }
     res
 }
